@@ -146,12 +146,60 @@ func (o *oracle) onWrite(wr store.Write) {
 				state = string(model.StateConfirmed) // documented: empty means confirmed (old data)
 			}
 		}
+		if o.affState(key) == "" && state != "" {
+			o.checkCap(k.Host, cidr, wr, seq)
+		}
 		o.aff[key] = append(o.aff[key], affEvent{seq: seq, state: state})
 		w.r.Logf("  aff %s -> %q (by %s)", key, state, wr.Actor)
 		if state == string(model.StateConfirmed) {
 			w.r.Probe("affinity_confirmed")
 		}
 		o.checkAffinities(cidr, seq)
+	}
+}
+
+// checkCap: C20's "a host never holds more affine blocks than the configured cap" (per IP version), judged at
+// the instant an auto-assignment creates a new block claim for the host.  Asserted only in runs where the
+// host's callers are serialised and use auto-assignment only (see run()).
+func (o *oracle) checkCap(host, cidr string, wr store.Write, seq int) {
+	w, r := o.w, o.w.r
+	if !o.armed("C20") || !w.capAsserted {
+		return
+	}
+	act := o.actorOf(wr.Actor)
+	if act == nil || act.cur == nil || act.cur.kind != opAutoAssign || act.host != host {
+		return
+	}
+	is4 := !strings.Contains(cidr, ":")
+	total, usable := 0, 0
+	var held []string
+	for _, key := range sortedAffKeys(o.aff) {
+		// only confirmed claims are ownership; a pending or being-deleted claim (e.g. one that lost a race and
+		// could not be cleaned up) is documented as "treat as absent"
+		if !strings.HasPrefix(key, "host:"+host+"|") || o.affState(key) != string(model.StateConfirmed) {
+			continue
+		}
+		c := key[len("host:"+host+"|"):]
+		if is4 != !strings.Contains(c, ":") {
+			continue
+		}
+		total++
+		held = append(held, c)
+		if act.cur.poolUsable != nil && act.cur.poolUsable(mustCIDR(c).IP) {
+			usable++
+		}
+	}
+	cap := w.maxBlocks
+	if act.cur.reqMaxBlocks > 0 && act.cur.reqMaxBlocks < cap {
+		cap = act.cur.reqMaxBlocks
+	}
+	r.Eval()
+	if total >= cap {
+		detail := "the host was already at the cap inside the pools this request may use"
+		if usable < cap {
+			detail = "counting only blocks inside the pools this request may use the host was below the cap"
+		}
+		r.Violation("blocks_per_host_cap", "%s claimed block %s for host %s, which already held %d affine blocks %v; the cap is %d (%s: %d)", act.cur.desc, cidr, host, total, held, cap, detail, usable)
 	}
 }
 
@@ -265,7 +313,12 @@ func (o *oracle) blockTransition(cidr string, nb *blockShadow, wr store.Write, s
 				}
 			}
 			r.Probe("released")
+			// The release happened somewhere inside the releasing operation's window; the earliest defensible
+			// instant (its invocation) is used so that a stalled releaser is not held against the allocator.
 			o.lastReleased[ip] = now
+			if op != nil {
+				o.lastReleased[ip] = op.invokeAt
+			}
 			if b.kind == kFree {
 				o.freeSince[ip] = seq
 			}
@@ -356,7 +409,9 @@ func (o *oracle) checkAllocContext(cidr string, nb *blockShadow, ip string, op *
 			r.Probe("borrowed_from_non_affine_block")
 		}
 	}
-	if o.armed("C22") && nb.affinity == self && (op.kind == opAutoAssign || op.kind == opAssignIP) {
+	// Under strict affinity the only way to an address is the walk over the host's own claims, so the claim
+	// must have been confirmed; AssignIP and the non-strict hunt through arbitrary blocks never consult claims.
+	if o.armed("C22") && w.strict && nb.affinity == self && op.kind == opAutoAssign {
 		key := self + "|" + cidr
 		r.Check("allocation_needs_confirmed_affinity", o.confirmedInWindow(key, op.invoke, seq),
 			"%s on %s allocated %s from its affine block %s, but the affinity %s was never confirmed between the operation's start (event %d) and the write (event %d); history %v",
